@@ -96,6 +96,71 @@ fn nt_c01(h: &Hist) -> bool {
     delivered(h) >= 2 && vts >= 2 && (handoff || exit_after_finish) && cycle_inside_a_trace(h)
 }
 
+fn nt_c01_sched(h: &Hist) -> bool {
+    let vts = h.vts.iter().filter(|v| v.ops_done > 0).count();
+    let handoff = h.labels.contains_key("handoff_finish");
+    let exit_after_finish = h.spans.iter().any(|s| {
+        !s.noop && s.finish_t.map_or(false, |f| s.finish_vt.map_or(false, |vt| h.vts[vt].exit_t.map_or(false, |e| e.0 <= f.1 + 3)))
+    });
+    delivered(h) >= 1 && vts >= 2 && (handoff || exit_after_finish) && h.cycles.iter().any(|c| c.interleaved > 0)
+}
+
+fn must_member_other_vt(h: &Hist) -> bool {
+    h.spans.iter().enumerate().any(|(u, r)| {
+        r.is_root && !r.noop && r.finish_t.is_some() && {
+            let rf = r.finish_t.unwrap();
+            h.spans.iter().any(|s| !s.noop && s.items.iter().any(|i| i.unit == u && i.sampled) && s.finish_t.map_or(false, |f| f.1 < rf.0) && s.finish_vt != r.finish_vt)
+        }
+    })
+}
+
+fn nt_c03(h: &Hist) -> bool {
+    delivered(h) >= 2 && must_member_other_vt(h) && h.cycles.iter().any(|c| c.interleaved > 0)
+}
+
+fn nt_c03_api(h: &Hist) -> bool {
+    delivered(h) >= 3
+        && h.spans.iter().enumerate().any(|(u, r)| {
+            r.is_root && !r.noop && r.finish_t.map_or(false, |rf| {
+                let members: Vec<T> = h.spans.iter().filter(|s| !s.noop && !s.is_root && s.items.iter().any(|i| i.unit == u && i.sampled)).filter_map(|s| s.finish_t).filter(|f| f.1 < rf.0).map(|f| f.1).collect();
+                members.len() >= 2 && members.iter().any(|m| h.cycles.iter().any(|c| c.t0 > *m && c.t1.map_or(false, |t1| t1 < rf.0)))
+            })
+        })
+}
+
+fn nt_c04(h: &Hist) -> bool {
+    h.spans.iter().enumerate().any(|(u, r)| {
+        if r.cancel_t.is_empty() || r.noop {
+            return false;
+        }
+        let c = r.cancel_t[0];
+        if h.cancelable && r.is_root {
+            let unfinished_elsewhere = h.spans.iter().any(|s| !s.noop && !s.is_root && s.items.iter().any(|i| i.unit == u) && s.create_t.1 < c.0 && s.finish_t.map_or(true, |f| f.0 > c.1) && s.finish_vt != r.finish_vt);
+            let cycle_between = r.finish_t.map_or(false, |f| h.cycles.iter().any(|cy| cy.t0 > c.1 && cy.t1.map_or(false, |t1| t1 < f.0)));
+            unfinished_elsewhere || cycle_between || h.labels.contains_key("fill")
+        } else {
+            // no-op cancel: an attachment parked across a cycle before it
+            h.atts.iter().any(|a| a.route == Route::Handle && a.t.1 < c.0 && h.cycles.iter().any(|cy| cy.t0 > a.t.1 && cy.t1.map_or(false, |t1| t1 < c.0)))
+        }
+    })
+}
+
+fn nt_c08(h: &Hist) -> bool {
+    let cross = h.spans.iter().any(|r| r.is_root && !r.noop && r.finish_vt.map_or(false, |f| f != r.create_vt) && h.cycles.iter().any(|c| c.interleaved > 0));
+    let exit_queued = h.vts.iter().any(|v| v.exit_t.is_some() && v.ops_done > 0) && h.cycles.iter().any(|c| c.interleaved > 0);
+    !h.stats.is_empty() && (cross || exit_queued)
+}
+
+fn o_c03(h: &Hist) -> Vec<Viol> {
+    oracle::c03(&Index::new(h), "C03")
+}
+fn o_c04(h: &Hist) -> Vec<Viol> {
+    oracle::c04(&Index::new(h))
+}
+fn o_c08(h: &Hist) -> Vec<Viol> {
+    oracle::c08(&Index::new(h))
+}
+
 fn nt_c05(h: &Hist) -> bool {
     let mixed = h.spans.iter().any(|s| s.items.iter().any(|i| i.sampled) && s.items.iter().any(|i| !i.sampled));
     let unsampled_units: Vec<usize> = h.spans.iter().enumerate().filter(|(_, s)| s.is_root && !s.noop && s.items.iter().all(|i| !i.sampled)).map(|(i, _)| i).collect();
@@ -261,6 +326,145 @@ pub fn spec(id: &str, variant: &str, cancelable: bool, thorough: bool) -> Option
             oracle: o_c01,
             nontrivial: nt_c01,
             rule: "programs of 2-4 vthreads over root/child/multi-parent/local-scope/push/flush ops with generated op-granularity schedule and real flush() cycles; non-trivial = >=2 vthreads active, a span handed off between vthreads or a thread exit right after a finish, and a collector cycle strictly inside a sampled trace; distinct = hash of the executed model shape",
+        },
+        ("C01", "sched") => PropSpec {
+            id: "C01",
+            profile: big(Profile {
+                threads: (2, 4),
+                ops: (0, 10),
+                cycles: (0, 6),
+                sched_len: (0, 40),
+                ..base.clone().set(&[
+                    (K::CollectorStart, 2),
+                    (K::PushChildSpans, 3),
+                    (K::Flush, 3),
+                    (K::Exit, 4),
+                    (K::AddEventL, 1),
+                    (K::Finish, 18),
+                ])
+            }),
+            opts: ExecOpts::new(Mode::Sched),
+            oracle: o_c01,
+            nontrivial: nt_c01_sched,
+            rule: "programs of 2-4 vthreads (roots, children, multi-parent, local scopes, hand-off finishes, thread exit) with a generated schedule at yield-point granularity: before every ring push, before every receiver drain and between an empty pop and the abandonment check; non-trivial = >=2 vthreads active, a hand-off or a thread exit right after a finish, and >=1 step of another vthread interleaved inside a collector cycle; distinct = hash of the executed model shape and schedule",
+        },
+        ("C03", "sched") => PropSpec {
+            id: "C03",
+            profile: big(Profile {
+                threads: (2, 4),
+                ops: (0, 10),
+                cycles: (0, 6),
+                sched_len: (0, 40),
+                cancelable: Some(true),
+                ..base.clone().set(&[
+                    (K::CollectorStart, 2),
+                    (K::PushChildSpans, 3),
+                    (K::Flush, 2),
+                    (K::Exit, 3),
+                    (K::Finish, 18),
+                    (K::Child, 14),
+                ])
+            }),
+            opts: ExecOpts::new(Mode::Sched),
+            oracle: o_c03,
+            nontrivial: nt_c03,
+            rule: "cancelable(true); programs of 2-4 vthreads whose spans finish on arbitrary vthreads before the root does (ordered by the baton's real happens-before), schedule at yield-point granularity (ring pushes, receiver drains, empty-pop/abandon gap); non-trivial = a must-set member finished on another vthread than the root's finishing vthread and a step of another vthread inside a collector cycle; distinct = hash of the executed model shape and schedule",
+        },
+        ("C03", "api") => PropSpec {
+            id: "C03",
+            profile: big(Profile {
+                threads: (1, 3),
+                ops: (0, 20),
+                cycles: (0, 6),
+                cancelable: Some(true),
+                ..base.clone().set(&[(K::CollectorStart, 2), (K::PushChildSpans, 3), (K::Flush, 5), (K::Exit, 2), (K::Finish, 16)])
+            }),
+            opts: api.clone(),
+            oracle: o_c03,
+            nontrivial: nt_c03_api,
+            rule: "cancelable(true); same programs at operation granularity with real flush() cycles; non-trivial = a trace with >=2 must-set members and a cycle between a member's finish and the root's finish",
+        },
+        ("C04", "sched") => PropSpec {
+            id: "C04",
+            profile: big(Profile {
+                threads: (2, 4),
+                ops: (0, 10),
+                cycles: (0, 6),
+                sched_len: (0, 40),
+                cancelable: Some(cancelable),
+                ..base.clone().set(&[
+                    (K::Cancel, 9),
+                    (K::MultiChild, 6),
+                    (K::CollectorStart, 2),
+                    (K::PushChildSpans, 4),
+                    (K::Flush, 2),
+                    (K::Exit, 3),
+                    (K::Finish, 16),
+                    (K::AddPropsH, 3),
+                    (K::AddEventH, 3),
+                    (K::Fill, if cancelable { 2 } else { 0 }),
+                ])
+            }),
+            opts: ExecOpts {
+                exclude: vec!["dup_unit_attach"],
+                ..ExecOpts::new(Mode::Sched)
+            },
+            oracle: o_c04,
+            nontrivial: nt_c04,
+            rule: "programs that cancel roots at arbitrary points (children in flight on other vthreads, cycles between cancel and finish, multi-parent spans and pushed sets shared with live traces, ring-full episodes around the cancel/finish pair, thread exit with parked commands); default config and non-root/no-op targets as no-op cancels; non-trivial = a cancel with >=1 span of the trace unfinished on another vthread, or a cycle between cancel and finish, or the ring full at cancel/finish, or (no-op cancel) an attachment parked across a cycle before it; distinct = hash of the executed model shape and schedule",
+        },
+        ("C04", "api") => PropSpec {
+            id: "C04",
+            profile: big(Profile {
+                threads: (1, 3),
+                ops: (0, 22),
+                cycles: (0, 6),
+                cancelable: Some(cancelable),
+                ..base.clone().set(&[
+                    (K::Cancel, 9),
+                    (K::MultiChild, 6),
+                    (K::CollectorStart, 2),
+                    (K::PushChildSpans, 4),
+                    (K::Flush, 6),
+                    (K::AddPropsH, 6),
+                    (K::AddEventH, 6),
+                    (K::AddEventL, 3),
+                ])
+            }),
+            opts: ExecOpts {
+                exclude: vec!["dup_unit_attach"],
+                ..api.clone()
+            },
+            oracle: o_c04,
+            nontrivial: nt_c04,
+            rule: "same at operation granularity with real flush() cycles",
+        },
+        ("C08", "sched") => PropSpec {
+            id: "C08",
+            profile: big(Profile {
+                threads: (2, 5),
+                ops: (0, 10),
+                cycles: (0, 8),
+                sched_len: (0, 40),
+                cancelable: Some(cancelable),
+                ..base.clone().set(&[
+                    (K::Root, 16),
+                    (K::Cancel, 4),
+                    (K::Exit, 4),
+                    (K::Finish, 20),
+                    (K::AddPropsH, 3),
+                    (K::AddEventH, 3),
+                    (K::AddEventL, 2),
+                    (K::Flush, 2),
+                ])
+            }),
+            opts: ExecOpts {
+                stats: true,
+                ..ExecOpts::new(Mode::Sched)
+            },
+            oracle: o_c08,
+            nontrivial: nt_c08,
+            rule: "histories of trace starts/finishes/cancels and vthread births/exits (2-5 vthreads, roots started and finished through different vthreads' queues), both configs, collector cycles cut anywhere by the schedule; collector_stats() sampled whenever the collector is idle and at quiescence; non-trivial = a trace whose start and commit/drop travel through different receivers with a cycle step between them, or a vthread exit with commands still queued; distinct = hash of the executed model shape and schedule",
         },
         ("C02", _) => PropSpec {
             id: "C02",
